@@ -147,6 +147,10 @@ def check(ctx):
             ctx.require(R3, d.has_leaf("upvar:1") and not [v for v in d.via if v.rsplit("::", 1)[-1] not in TRANSPARENT_OK], c.where(),
                         "%s forwards its data argument unchanged" % key.rsplit("::", 1)[1], [key, "forward"])
 
+    R5 = ctx.rule("R5", "the key, the certificate and the account each have their own path: per-type extension from the like-named option, file type given to the name template")
+    from .storage_common import file_identity_rules
+    file_identity_rules(ctx, R5)
+
     R4 = ctx.rule("R4", "files are opened for writing only in storage::write_file (hook stdout/stderr and the pid file excepted)")
     allowed = {"acmed::storage::write_file::{closure#0}": "storage files", "acmed::hooks::call_single::{closure#0}": "hook stdout/stderr redirection",
                "acme_common::write_pid_file": "pid file"}
